@@ -114,6 +114,7 @@ func verifyFunction(p *Program, fn *ssa.Function, c *FuncContract, emit func(*Ob
 	if fe.retPaths == 0 && len(fe.errs) == 0 {
 		fe.errorf("no path of %s reaches a return", fn)
 	}
+	fe.checkOnlyClauses()
 	// every call-site clause of the contract must have been exercised on some path
 	if len(fe.errs) == 0 {
 		for i, cg := range c.CallGhosts {
@@ -123,6 +124,78 @@ func verifyFunction(p *Program, fn *ssa.Function, c *FuncContract, emit func(*Ob
 		}
 	}
 	return fe
+}
+
+// checkOnlyClauses: static resource discipline. Every call that receives the named
+// local (loaded from its cell, possibly converted to an interface) must be one of
+// the listed sites.
+func (fe *FnExec) checkOnlyClauses() {
+	for ci, oc := range fe.C.Only {
+		allowed := map[string]bool{}
+		for _, s := range oc.Sites {
+			allowed[s] = true
+		}
+		var derives func(v ssa.Value, depth int) bool
+		derives = func(v ssa.Value, depth int) bool {
+			if depth > 6 {
+				return false
+			}
+			switch x := v.(type) {
+			case *ssa.UnOp:
+				if a, ok := x.X.(*ssa.Alloc); ok && a.Comment == oc.Local {
+					return true
+				}
+			case *ssa.MakeInterface:
+				return derives(x.X, depth+1)
+			case *ssa.ChangeInterface:
+				return derives(x.X, depth+1)
+			case *ssa.ChangeType:
+				return derives(x.X, depth+1)
+			case *ssa.Alloc:
+				return x.Comment == oc.Local
+			}
+			return false
+		}
+		found := false
+		for _, b := range fe.Fn.Blocks {
+			for _, in := range b.Instrs {
+				call, ok := in.(ssa.CallInstruction)
+				if !ok {
+					continue
+				}
+				c := call.Common()
+				uses := false
+				if c.IsInvoke() || !isStaticCallee(c) {
+					uses = derives(c.Value, 0)
+				}
+				for _, a := range c.Args {
+					if derives(a, 0) {
+						uses = true
+					}
+				}
+				if !uses {
+					continue
+				}
+				found = true
+				site := fmt.Sprintf("%s#%d", calleeShortName(c), fe.callOrd[in])
+				tags := oc.Tags
+				if len(tags) == 0 {
+					tags = []string{"support"}
+				}
+				status := "unsat"
+				if !allowed[site] {
+					status = "sat"
+				}
+				fe.nObl++
+				fe.emit(&Obligation{Func: shortFn(fe.Fn.String()), Name: fe.oblName(fmt.Sprintf("only#%d/%s", ci+1, site)), Kind: "frame", Tags: tags,
+					Text: "'" + oc.Local + "' may only be handed to " + strings.Join(oc.Sites, ", ") + " (found: " + site + ")", Pos: fe.pos(in.Pos()),
+					Result: SolverResult{Status: status, Solver: "syntactic", Raw: "static resource discipline: call site " + site + " receives " + oc.Local}})
+			}
+		}
+		if !found {
+			fe.errorf("only-clause names local %q but no call receives it", oc.Local)
+		}
+	}
 }
 
 func contractTags(c *FuncContract) []string {
@@ -142,6 +215,13 @@ func contractTags(c *FuncContract) []string {
 	add(c.Requires)
 	add(c.Ensures)
 	add(c.Checks)
+	for _, oc := range c.Only {
+		for _, t := range oc.Tags {
+			if t != "support" {
+				set[t] = true
+			}
+		}
+	}
 	for _, cg := range c.CallGhosts {
 		for _, t := range cg.Tags {
 			if t != "support" {
